@@ -1,12 +1,13 @@
 (* C07 — every offending path is reported and the exit status reflects any failure.
-   Statements only; proofs in Proofs/KeepGoing.v.  PARTIAL: the aggregation (nothing is dropped or
-   short-circuited, over the whole tree and the trailing missing-directory pass) is proved for all
-   inputs; that the handler is called exactly once per offending path is carried by the
-   correspondence engine, which compares the complete call log. *)
+   Statements only; proofs in Proofs/KeepGoing.v.  The aggregation (nothing is dropped or short-circuited, over the whole tree and the trailing
+   missing-directory pass) is proved for all inputs; within one directory the handler is invoked exactly for
+   the items that do not verify, once each, in order (C07_directory_log with C01_items_exactly: every name is
+   an item at most once).  PARTIAL: "exactly once per offending path" across directories of the whole tree is
+   carried by the correspondence engine, which compares the complete call log. *)
 From Coq Require Import List NArith ZArith.
 From Gemato Require Import Py.PyStr Py.PyPath Gen.Tables Model.Entry Model.Text Model.OpenPGP Model.Hash
   Model.FS Model.Verify Model.Loader.
-From Gemato Require Import Proofs.KeepGoing.
+From Gemato Require Import Proofs.KeepGoing Proofs.DirSpec.
 Import ListNotations.
 Open Scope N_scope.
 
@@ -24,3 +25,15 @@ Theorem C07_walk_monotone : forall (L : hashlib) fuel w c dirpath rel ids ed ret
   exists new, log' = log ++ new /\ ret' = ret && forallb (verdict (vc_pol c)) new.
 Proof. exact walk_verify_ext. Qed.
 Print Assumptions C07_walk_monotone.
+
+(* one directory, any handler that does not raise: the new handler invocations are exactly the items of the
+   directory that do not verify (each with its differences), in the order of the items *)
+Theorem C07_directory_log : forall (L : hashlib) w c dp rp dirnames filenames dirdict log b log',
+  vc_pol c <> PolThrow ->
+  verify_dir L w c dp rp dirnames filenames dirdict log = Ok (b, log') ->
+  log' = log ++ flat_map (failing L w c dp rp) (dir_items (vc_top c) rp dirnames filenames dirdict).
+Proof.
+  intros L w c dp rp dirnames filenames dirdict log b log' Hp H. rewrite verify_dir_items in H.
+  eapply verify_items_log; eassumption.
+Qed.
+Print Assumptions C07_directory_log.
